@@ -47,6 +47,9 @@ fn peel_full_haystack_pattern(re: &str) -> &str {
 /// # Ok::<(), Box<dyn Error>>(())
 /// ```
 pub fn new_full_haystack_regex(re: &str) -> Result<Regex, regex::Error> {
+    // the pattern must be a regular expression on its own, not only inside the
+    // wrapper: e.g. `a)|(?:b` compiles as `^(?:a)|(?:b)$`
+    Regex::new(re)?;
     Regex::new(into_full_haystack_pattern(re).as_str())
 }
 
@@ -94,7 +97,12 @@ where
     S: AsRef<str>,
     I: IntoIterator<Item = S>,
 {
-    RegexSet::new(exprs.into_iter().map(|re| into_full_haystack_pattern(re)))
+    let exprs: Vec<S> = exprs.into_iter().collect();
+    for re in &exprs {
+        // each pattern must be a regular expression on its own (see above)
+        Regex::new(re.as_ref())?;
+    }
+    RegexSet::new(exprs.iter().map(|re| into_full_haystack_pattern(re)))
 }
 
 /// Returns the peeled regex patterns that this regex set was constructed from.
